@@ -842,6 +842,20 @@ def run(ctx):
                 break
             for ops in cs:
                 cases.append({"n": name, "iid": iid, "r": r["ix"], "rs": gen.candidates(name, ops, r), "o": ops})
+    # mov Rd, #imm : any value, one to four words (movz/movn/movk/orr) - judged by the MovWide evaluator (A64Imm!MovEval)
+    mov_id = ids.get("mov", {}).get("gp")
+    nmov = 0
+    if mov_id:
+        rnd = random.Random(ctx.seed + 7)
+        lanes = [0, 0xFFFF, 0x1234, 0x8000]
+        xs = {sum(l[k] << (16 * k) for k in range(4)) for l in ([a, b, c, d] for a in lanes for b in lanes for c in lanes for d in lanes)}
+        xs |= set(gen.log[64][:40]) | {rnd.getrandbits(64) for _ in range(40 if q else 2000)} | {(1 << 64) - 1 - (0x1234 << s_) for s_ in (0, 16, 32, 48)}
+        ws = {v & 0xFFFFFFFF for v in xs} | set(gen.log[32][:30])
+        for t, vals in (("x", sorted(xs)), ("w", sorted(ws))):
+            for n_, v in enumerate(vals):
+                rid_ = 3 if n_ % 7 else [0, 15, 30, 31, 16][n_ // 7 % 5]
+                cases.append({"n": "mov", "iid": mov_id, "r": 0, "rs": [], "o": [R(t, rid_), I(v)], "cls": "mov"})
+                nmov += 1
     if no_id:
         not_cov["mnemonic has no a64::Inst id in the pinned asmjit"] = sorted(set(no_id))
     if no_gen:
@@ -855,7 +869,7 @@ def run(ctx):
         seen.add(key)
         uniq.append(c)
     cases = uniq
-    ctx.log(f"sweep: {len(cases)} distinct cases over {len({c['r'] for c in cases})} rows")
+    ctx.log(f"sweep: {len(cases)} distinct cases over {len({c['r'] for c in cases if c['r']})} rows (+{nmov} mov-immediate sequences)")
     cp, op = ctx.path("cases.ndjson"), ctx.path("obs.ndjson")
     with open(cp, "w") as f:
         for c in cases:
@@ -886,7 +900,7 @@ def run(ctx):
 
     # ---- TLC ---------------------------------------------------------------------------------------------------
     for o in obs:
-        o["cls"] = "enc"
+        o.setdefault("cls", "enc")
     lines = [json.dumps({k: o[k] for k in ("n", "rs", "o", "ok", "w", "lx", "lok", "lw", "nl", "cls", "r")}, separators=(",", ":")) for o in obs]
     t0 = time.time()
     rejects = tlc_pointwise(ctx, lines, "obs", 8 if q else 12, rows_tla)
@@ -895,17 +909,18 @@ def run(ctx):
 
 
 def classify(ctx, rows, obs, rejects, not_cov, total):
-    accepted_rows = {o["r"] for o in obs if o["ok"]}
-    exercised_rows = {o["r"] for o in obs}
+    accepted_rows = {o["r"] for o in obs if o["ok"] and o["r"]}
+    exercised_rows = {o["r"] for o in obs if o["r"]}
+    ctx.extra["mov_immediate_sequences_judged"] = sum(1 for o in obs if o["ok"] and not o["r"])
     viol = collections.OrderedDict()
     unjudged = collections.OrderedDict()
     llvm_only = collections.OrderedDict()
     bad_rows = set()
     for o, va, vaf, vl, vlf, cor in rejects:
-        sig = rows[o["r"] - 1]["sig"]
+        sig = rows[o["r"] - 1]["sig"] if o["r"] else "mov Rd, #imm (movz/movn/movk/orr sequence)"
         if va and cor:
-            why = why_refused(o, vaf, rows) if va == "accepts-unencodable" else "wrong-bits"
-            key = f"{va}:{vaf}:{why}:{o['n']}"
+            why = (why_refused(o, vaf, rows) if va == "accepts-unencodable" else "wrong-bits") if o["r"] else "sequence-value"
+            key = f"{va}:{o['n']}:{vaf}:{why}"
             viol.setdefault(key, []).append(o)
         elif va:
             unjudged.setdefault(f"{sig} | {va}:{vaf} (llvm-mc: {vl or 'agrees with asmjit' if o['lx'] else 'n/a'}{':' + vlf if vlf else ''})", []).append(o)
@@ -935,17 +950,22 @@ def classify(ctx, rows, obs, rejects, not_cov, total):
         ctx.log(f"  unjudged: {k}  x{len(v)}  e.g. {obs_text(v[0])}")
     for k, v in list(llvm_only.items())[:8]:
         ctx.log(f"  llvm-only: {k}  x{len(v)}  e.g. {obs_text(v[0])}")
-    # one report per (clause, field, situation): the mnemonics sharing it are listed; a KNOWN_FINDINGS key may name the
-    # whole group  <clause>:<field>:<situation>  or one mnemonic of it  <clause>:<field>:<situation>:<mnemonic>
+    # Full signature of a rejected case:  <clause>:<mnemonic>:<field>:<situation>.  A KNOWN_FINDINGS key is matched against it
+    # with fnmatch, so one defect site shared by many mnemonics is one line (e.g. accepts-unencodable:*:Vm:id>31).
+    # Unknown signatures are reported as one VIOLATION per (clause, field, situation) listing the mnemonics.
+    import fnmatch
     groups = collections.OrderedDict()
+    known_hits = collections.OrderedDict()
     for key, v in viol.items():
-        g = key.rsplit(":", 1)[0]
-        kk = key if key in ctx.known else g if g in ctx.known else None
+        cl, mn, fld, why = key.split(":", 3)
         ctx.extra.setdefault("rejected_groups", {})[key] = len(v)
+        kk = next((k for k in ctx.known if fnmatch.fnmatchcase(key, k)), None)
         if kk:
-            ctx.known_finding(kk, ctx.known[kk] + f" [{g}: {key.rsplit(':', 1)[1]} x{len(v)} in this run]")
+            known_hits.setdefault(kk, []).append((key, len(v)))
         else:
-            groups.setdefault(g, []).append((key.rsplit(":", 1)[1], v))
+            groups.setdefault(f"{cl}:{fld}:{why}", []).append((mn, v))
+    for kk, hits in known_hits.items():
+        ctx.known_finding(kk, ctx.known[kk] + f" [{sum(n for _, n in hits)} observations, {len(hits)} signature(s) in this run, e.g. {hits[0][0]}]")
     for g, members in groups.items():
         safe = re.sub(r"[^A-Za-z0-9_.-]", "_", g)[:120]
         rp = ctx.path(f"reject_{safe}.ndjson")
@@ -953,8 +973,9 @@ def classify(ctx, rows, obs, rejects, not_cov, total):
         vlib.write_ndjson(rp, allobs[:60])
         names = [m for m, _ in members]
         ex = [obs_text(v[0]) for _, v in members[:3]]
-        ctx.violation(f"{g}: {sum(len(v) for _, v in members)} rejected observation(s) over {len(names)} mnemonic(s) [{' '.join(names[:40])}{' ...' if len(names) > 40 else ''}], "
-                      f"e.g. " + " || ".join(ex), rp)
+        cl, fld, why = g.split(":", 2)
+        ctx.violation(f"{g} (signatures {cl}:<mnemonic>:{fld}:{why}): {sum(len(v) for _, v in members)} rejected observation(s) over {len(names)} mnemonic(s) "
+                      f"[{' '.join(names[:40])}{' ...' if len(names) > 40 else ''}], e.g. " + " || ".join(ex), rp)
     for o in [o for o in obs if o["ok"]][:4]:
         ctx.add_sample(obs_text(o))
     ctx.assumptions += [
